@@ -381,6 +381,72 @@ func topologies(r *rand.Rand, n int) []*vmesh.Topology {
 	return out[:n]
 }
 
+// limitSweep: router infos growing byte by byte up to the largest announcement a frame can carry (a 10000-byte
+// message). Every size whose message fits must be announced and must reach the other end of a line of three; the
+// first size that is refused must be one whose message would really exceed 10000 bytes.
+func limitSweep(res *core.Result, pool *idPool, r *rand.Rand, from, to int) {
+	t := vmesh.Line(3)
+	prevLen, prevOK := 0, false
+	for s := from; s <= to; s++ {
+		ms, err := vmesh.Build(r, t, pool.get(3), vmesh.BuildOpts{Labels: vmesh.LabelMode(1), InfoBytes: s})
+		if err != nil {
+			res.Inconcl("mesh build: %v", err)
+			return
+		}
+		msgLen := 0
+		ms.OnSend = func(p *vmesh.Packet) {
+			if p.From == 0 && len(p.Data) > 52 && (p.Data[4] == byte(frame.RouterHopPing) || p.Data[4] == byte(frame.RouterHopPingDeprecated)) {
+				mi := 49 + int(p.Data[48])
+				msgLen = int(p.Data[mi])<<8 | int(p.Data[mi+1])
+			}
+		}
+		var sendErr error
+		if pv := vmesh.Safely(func() {
+			for _, l := range ms.Nodes[0].Inst.PeeringV.GetLinks() {
+				if err := ms.Nodes[0].Inst.RouterV.AnnouncePing.Send(l.Peer()); err != nil {
+					sendErr = err
+				}
+			}
+		}); pv != nil {
+			res.Violate("announce-panic", fmt.Sprintf("line of 3, router info %d bytes: announcing panicked: %v", s, pv), map[string]any{"info": s, "case_id": fmt.Sprintf("limit|%d", s)})
+			return
+		}
+		wit := map[string]any{"info": s, "previous_message_len": prevLen, "case_id": fmt.Sprintf("limit|%d", s)}
+		if sendErr != nil || msgLen == 0 {
+			// refused: legitimate only if the message would exceed 10000 bytes. One more info byte makes the message
+			// one byte longer unless it starts a new 200-byte string or pushes a string length over a CBOR header step.
+			if prevOK && prevLen < 10000 && s%200 != 1 && s%200 != 24 && s%200 != 0 {
+				res.Violate("legal-announcement-refused", fmt.Sprintf("a router whose info is one byte bigger than one that announced itself with a %d-byte message (limit 10000) cannot announce itself: %v", prevLen, sendErr), wit)
+				return
+			}
+			res.Count("limit_sweep_sizes_refused", 1)
+			prevOK = false
+			continue
+		}
+		ms.Drain(vmesh.FIFO, 200)
+		if len(ms.Panics) > 0 {
+			res.Violate("handler-panic", fmt.Sprintf("line of 3, router info %d bytes: %v", s, ms.Panics[0]), wit)
+			return
+		}
+		has := false
+		for _, e := range ms.Nodes[2].Inst.RouterV.Table().VerifEntries() {
+			if e.DstIP == ms.Nodes[0].ID.IP {
+				has = true
+			}
+		}
+		if !has {
+			res.Violate("no-exact-route:limit-sweep", fmt.Sprintf("line of 3: router 0 announced itself with a %d-byte message (info %d bytes), but router 2 has no route to it after the network drained", msgLen, s), wit)
+			return
+		}
+		prevLen, prevOK = msgLen, true
+		res.Count("limit_sweep_sizes_reached", 1)
+		if msgLen == 10000 {
+			res.Count("limit_sweep_exactly_10000", 1)
+		}
+		res.Case(fmt.Sprintf("limit|%d", msgLen), true)
+	}
+}
+
 func run(c *core.Ctx) {
 	res := c.Res
 	const W = 16
@@ -414,6 +480,11 @@ func run(c *core.Ctx) {
 		for i := w; i < len(jobs); i += W {
 			oneRun(res, pool, r, jobs[i].rc, nil)
 		}
+	})
+	// the largest announcements a frame can carry
+	parallel(4, func(w int) {
+		lo := 9700 + w*45
+		limitSweep(res, &idPool{r: core.RNG(fmt.Sprintf("c09/limitids/%d", w))}, core.RNG(fmt.Sprintf("c09/limit/%d", w)), lo, lo+46)
 	})
 	// Budgeted exhaustive exploration of delivery orders for tiny meshes.
 	tiny := []*vmesh.Topology{vmesh.Line(2), vmesh.Line(3), vmesh.Ring(3)}
